@@ -32,8 +32,8 @@ VIA = {via!r}     # None: a fresh stDiGraph/stDAG; else the graph object held by
 
 def _build():
     G = nx.DiGraph()
-    for (u, v), w in zip(EDGES, WEIGHTS):
-        G.add_edge(u, v, flow=w)
+    for j, ((u, v), w) in enumerate(zip(EDGES, WEIGHTS)):
+        G.add_edge(u, v, flow=w, cov=(3 * j + 1) % 7)        # a second attribute with other values
     if VIA is not None:
         return getattr(fp, VIA)(G, "flow", k=1, weight_type=int).G
     return (fp.stDiGraph if CYC else fp.stDAG)(G)
@@ -56,10 +56,10 @@ def _bfs(H, start, forward=True):
 _FW = {{v: _bfs(_H0, v, True) for v in NODES}}
 _BW = {{v: _bfs(_H0, v, False) for v in NODES}}
 
-def _ref_max_reach(u, v):
+def _ref_max_reach(u, v, attr="flow"):
     best = 0.0
     for (a, b) in HEDGES:
-        w = float(_H0[a][b].get("flow", 0.0))
+        w = float(_H0[a][b].get(attr, 0.0))
         if (a, b) == (u, v) or a in _FW[v] or b in _BW[u]:
             best = max(best, w)
     return best
@@ -88,10 +88,19 @@ def _q_edge3(H, ren, inv, e):
         got = {{(inv[x], inv[y]) for (x, y) in H.reachable_edges_rev_from[ren[u]]}}
         return got == {{(x, y) for (x, y) in HEDGES if y in _BW[u]}}
 
+def _q_edge4(H, ren, inv, e):
+    # the same question for the second attribute (and for an attribute no edge has): answers must not leak between attributes
+    (u, v) = e
+    with NoTracing():
+        if CYC:
+            ok = H.compute_edge_max_reachable_value("cov")[(ren[u], ren[v])] == _ref_max_reach(u, v, "cov")
+            return ok and H.compute_edge_max_reachable_value("none_such")[(ren[u], ren[v])] == 0.0
+        return True
+
 def history(kinds: List[int], args: List[int]) -> bool:
     """
     pre: len(kinds) == len(args) and 1 <= len(kinds) <= {hist}
-    pre: all(0 <= k < 4 for k in kinds)
+    pre: all(0 <= k < 5 for k in kinds)
     pre: all(0 <= a < 5 for a in args)
     post: _
     """
@@ -115,22 +124,26 @@ def history(kinds: List[int], args: List[int]) -> bool:
             e = HEDGES[SEL[a] % len(HEDGES)]
             if not _q_edge2(H, ren, inv, e):
                 return False
-        else:
+        elif k == 3:
             e = HEDGES[SEL[a] % len(HEDGES)]
             if not _q_edge3(H, ren, inv, e):
+                return False
+        else:
+            e = HEDGES[SEL[a] % len(HEDGES)]
+            if not _q_edge4(H, ren, inv, e):
                 return False
     return True
 
 def twin(kinds: List[int], args: List[int]) -> bool:
     """
     pre: len(kinds) == len(args) and len(kinds) == {hist}
-    pre: all(0 <= k < 4 for k in kinds)
+    pre: all(0 <= k < 5 for k in kinds)
     pre: all(0 <= a < 5 for a in args)
     post: False
     """
     return True
 
-history([0, 1, 2, 3][:{hist}], [0, 1, 2, 3][:{hist}])
+history([0, 1, 2, 3, 4][:{hist}], [0, 1, 2, 3, 4][:{hist}])
 '''
 
 
